@@ -36,12 +36,12 @@ impl Scenario for C15S {
     }
     fn count(&self, tier: Tier, _variant: &str) -> u64 {
         match tier {
-            Tier::Quick => BASE * 2,
+            Tier::Quick => BASE * 3,
             Tier::Thorough => BASE * 100,
         }
     }
     fn rule(&self) -> &'static str {
-        "enumeration: attachment count 0..300 x mixture (senders | receivers | regions | mixed) x data part (empty | small | exactly one packet | one byte over | multi-packet); each case with a receiver thread that probes every received attachment, then a normal follow-up message; quick runs the enumeration under 2 seeded schedules / SO_SNDBUF settings, thorough under 100; non-trivial = more than 60 attachments; distinct = distinct (count, mixture, data part, schedule hash)"
+        "enumeration: attachment count 0..300 x mixture (senders | receivers | regions | mixed) x data part (empty | small | exactly one packet | one byte over | multi-packet); each case with a receiver thread that probes every received attachment, then a normal follow-up message; quick runs the enumeration 3 times (two SO_SNDBUF settings; the third pass with ENOBUFS on the first transmission attempt), thorough 100 times; non-trivial = more than 60 attachments; distinct = distinct (count, mixture, data part, schedule hash)"
     }
     fn gen(&self, seed: u64, idx: u64, _tier: Tier, _variant: &str) -> Value {
         let rep = idx / BASE;
@@ -54,6 +54,11 @@ impl Scenario for C15S {
         sim["sndbuf"] = if rep % 2 == 0 { json!(8192) } else { Value::Null };
         if rep == 0 {
             sim["policy"] = json!({"kind": "sticky", "pct": 85});
+        }
+        if rep % 3 == 2 {
+            // transient refusal of the first attempt: a single-packet message is re-sent fragmented
+            // (one more descriptor travels), a multi-packet one with smaller packets
+            sim["faults"] = json!([{"k": "txerr", "pid": 2, "nth": 0, "errno": libc::ENOBUFS}]);
         }
         let (first, _) = predict_frag(sim["sndbuf"].as_u64(), false);
         // serialised size = 4 (tag) + 8+len + (8+8a) + (8+8b) + (8+8c)
@@ -100,10 +105,12 @@ impl Scenario for C15S {
             }
         }
         let (ntx, nrx, nreg) = (m.tx.len(), m.rx.len(), m.regs.len());
-        sim::spawn("sender", None, move || {
+        sim::spawn("sender", Some(2), move || {
             let _keep = hold_tx;
             hist::log("send.inv", 1, n as i64, len as i64, "");
             let r = tx.send(m);
+            // (a refusal that did not fire inside the send under test must not hit the follow-up)
+            sim::clear_faults();
             match r {
                 Ok(()) => hist::log("send.ok", 1, 0, 0, ""),
                 Err(e) => hist::log("send.err", 1, 0, 0, &e.to_string()),
